@@ -184,6 +184,37 @@ def oracle_session(c, o):
                 out.append(dict(clause="step(n) delivers exactly n events unless the run ends first", n=cmd[1], delivered=snap[2] - prev[2]))
                 break
         prev = snap
+    # a breakpoint pauses right after the FIRST delivery that satisfies it: within one run segment no
+    # delivery before the last one may satisfy a registered breakpoint
+    evs = [h for h in o["hook_log"] if h[0] == "event"]
+    bps, pos = [], 0
+    ops = {0: lambda v, t: v > t, 1: lambda v, t: v >= t, 2: lambda v, t: v < t, 3: lambda v, t: v <= t,
+           4: lambda v, t: v == t, 5: lambda v, t: v != t}
+
+    def sat(b, h):
+        if b[1] == "time":
+            return h[1] >= b[2]
+        if b[1] == "count":
+            return h[4] >= b[2]
+        if b[1] == "type":
+            return h[3] == b[2]
+        return b[2] < len(h[5]) and ops[b[4]](h[5][b[2]], b[5])
+    prev_proc = 0
+    for cmd, snap in zip(o["cmds"], o["snaps"]):
+        if cmd[0] == "bp":
+            bps.append(cmd)
+        elif cmd[0] == "clear":
+            bps = []
+        elif cmd[0] in ("start", "step", "resume") and snap[0] != 3:
+            seg = [h for h in evs[pos:] if h[4] <= snap[2]]
+            pos += len(seg)
+            for h in seg[:-1]:
+                hit = [b for b in bps if sat(b, h)]
+                if hit and not out:
+                    out.append(dict(clause="a breakpoint pauses right after the first delivery that satisfies it",
+                                    breakpoint=hit[0], delivery=h[:5], command=cmd))
+            if seg:
+                bps = [b for b in bps if not (b[3] and sat(b, seg[-1]))]
     ev_hooks = [h[2] for h in o["hook_log"] if h[0] == "event"]
     delivered_ids = [p[5] for p in o["pops"] if p[4] == "delivered"]
     if last is not None and last[0] == 3:
